@@ -174,18 +174,25 @@ def run(ctx):
                 ctx.violation(key, 'text template %r rendered %r, expected %r' % (src, got, exp),
                               {'kind': 'text', 'src': src, 'expected': exp})
             if done % 8 == 0:
-                for enc in ('utf-8', 'latin-1', 'utf-16-le'):
+                for enc in ('utf-8', 'latin-1', 'out-latin-1', 'out-cp1252'):
                     fn = os.path.join(tmp, 't%d.txt' % (done % 5))
+                    # 'out-X': the file is stored as UTF-8 but the template's (output) encoding is X
+                    file_enc = 'utf-8' if enc.startswith('out-') else enc
+                    out_enc = enc[4:] if enc.startswith('out-') else enc
                     try:
-                        data = src.encode(enc)
-                        want = exp.encode(enc)
+                        data = src.encode(file_enc)
+                        want = exp.encode(out_enc)
                     except UnicodeEncodeError:
                         continue
                     with open(fn, 'wb') as f:
                         f.write(data)
-                    cfg = {} if enc == 'utf-8' else {'default_encoding': enc, 'encoding': enc}
-                    if enc == 'utf-16-le':
-                        continue    # a BOM-less UTF-16 file is not detectable; only 8-bit encodings here
+                    if enc == 'utf-8':
+                        cfg = {}
+                    elif enc.startswith('out-'):
+                        cfg = {'encoding': out_enc}
+                    else:
+                        cfg = {'default_encoding': enc, 'encoding': enc}
+                    enc = out_enc
                     gotb = render_real(PageTextTemplateFile, fn, env, **cfg)
                     ctx.mon('file-compared')
                     ctx.case(key=('file', enc) + shape(parts), nontrivial=nontrivial)
